@@ -332,6 +332,8 @@ func TestVerifC01(t *testing.T) {
 			{"same, after message 1 was delivered", []int{1}, c01craft(g, sdevRaw, 5, sig1, keyAt(5), pays[1]), "PForged 1 5 (1, 5) 100001 1"},
 			{"forged payload, no signature", nil, c01craft(g, sdevRaw, 5, nil, keyAt(5), forgedPayload), "PForged 1 5 (1, 5) 999999 0"},
 			{"forged payload, signature of message 1", nil, c01craft(g, sdevRaw, 5, sig1, keyAt(5), forgedPayload), "PForged 1 5 (1, 5) 999999 0"},
+			{"forged payload, signature of message 1, after message 1 was delivered (the store has verified that signature)", []int{1}, c01craft(g, sdevRaw, 5, sig1, keyAt(5), forgedPayload), "PForged 1 5 (1, 5) 999999 0"},
+			{"forged payload, signature of message 1, after messages 1-3 were delivered", []int{1, 2, 3}, c01craft(g, sdevRaw, 5, sig1, keyAt(5), forgedPayload), "PForged 1 5 (1, 5) 999999 0"},
 			{"forged payload signed by the attacker's device key", nil, c01craft(g, sdevRaw, 5, asig(forgedPayload), keyAt(5), forgedPayload), "PForged 1 5 (1, 5) 999999 2"},
 			{"forged payload attributed to the attacker's device, sender's key", nil, c01craft(g, adevRaw, 5, asig(forgedPayload), keyAt(5), forgedPayload), "PForged 2 5 (1, 5) 999999 2"},
 			{"replay under counter 5 with the key of counter 4", nil, c01craft(g, sdevRaw, 5, sig1, keyAt(4), pays[1]), "PForged 1 5 (1, 4) 100001 1"},
